@@ -153,7 +153,7 @@ def spec_view(st):
             "dup": st["dup"], "drop": st["drop"], "idle": len(st["q"]) == 0}
 
 
-def load_graph(cfgname):
+def load_graph(cfgname, java_opts=()):
     """TLC on TaskManager.tla with a dump of the state graph. -> (TlcResult, Graph)"""
     tmp = scratch_dir("c11tm-")
     try:
@@ -161,7 +161,7 @@ def load_graph(cfgname):
         r = None
         for attempt in (1, 2, 3):
             try:
-                r = run_tlc("TaskManager.tla", cfgname, dump=dot)
+                r = run_tlc("TaskManager.tla", cfgname, dump=dot, java_opts=tuple(java_opts))
                 break
             except MachineryError as e:
                 if attempt == 3 or "rc=143" not in str(e) and "rc=137" not in str(e):
